@@ -411,8 +411,10 @@ class Ctx:
             "wall_s": round(time.time() - self.t0, 2),
             "violations": len(self.violations),
         }
-        os.makedirs(os.path.join(OUT, "evidence"), exist_ok=True)
-        with open(os.path.join(OUT, "evidence", "%s.json" % self.pid), "w") as g:
+        # (extra-coverage checks X.. are not properties of the manifest: their evidence is kept apart)
+        sub = "evidence-extra" if self.pid.startswith("X") else "evidence"
+        os.makedirs(os.path.join(OUT, sub), exist_ok=True)
+        with open(os.path.join(OUT, sub, "%s.json" % self.pid), "w") as g:
             json.dump(ev, g, indent=1, sort_keys=True)
             g.write("\n")
         return 1 if self.violations else 0
